@@ -3,6 +3,8 @@ import itertools
 from vlib import xhex, rnd_bytes
 
 THEOREMS = ["C18_unhex_hex", "C18_hex_unhex", "C18_rejects", "C18_total", "C18_tie_hexify", "C18_tie_unhexify"]
+REPEAT = 2            # case lines repeated 66 000 times on one thread (state that builds up over many calls)
+REPEAT_CMDS = ('HEX', 'UNHEX')
 RELEASE = True          # debug and release builds of the harness (debug_assert!, overflow checks, cfg(debug_assertions))
 RULE = ("HEX: every byte string of length <= 2 (exhaustive) + seeded random longer ones + every length 0..130 and around every power of two up to 4096 (zeros, ones, random, boundary first/last byte); UNHEX: every string of "
         "length <= 3 (quick) / <= 4 (thorough) over the 26-symbol alphabet {0-9 a-f A-F + - space g e-acute euro} + random "
